@@ -168,10 +168,14 @@ fn check_coset(c: &CosetCase, obs: &mut Obs) -> Result<(), String> {
     let ct = match guarded(|| coset_table(c.nr_gens, &rels, &subw)) {
         Ok(ct) => ct,
         Err(m) if m.contains("Reached coset table limit") => {
-            if expected <= 1500 && todd_coxeter(c.nr_gens, &c.rels, &sub, 1500).is_some() {
-                return Err(format!("coset_table gives up at its limit of 100 000 rows although [G:H] = {} and the reference enumeration never needs more than 1500 rows", expected));
+            // only for groups whose order (or lattice index) is known from the literature: on a random
+            // presentation with a free generator the crate's row-by-row strategy can legitimately need
+            // more than 100 000 rows where relator-filling needs a few hundred (seen: Z * K with K trivial
+            // only through a relator of length 15, index 3)
+            if (c.order > 0 || c.index > 0) && expected <= 1500 && todd_coxeter(c.nr_gens, &c.rels, &sub, 1500).is_some() {
+                return Err(format!("coset_table gives up at its limit of 100 000 rows although [G:H] = {} in a group of known order / index and the reference enumeration never needs more than 1500 rows", expected));
             }
-            obs.discard("Reached coset table limit (reference enumeration needs more than 1500 rows as well)");
+            obs.discard("Reached coset table limit (random presentation, or the reference enumeration needs more than 1500 rows as well)");
             return Ok(());
         }
         Err(m) => return Err(format!("panic: {}", m)),
@@ -421,6 +425,10 @@ pub fn random_presentation(max_gens: usize) -> impl Strategy<Value = (usize, Vec
         let rel = prop_oneof![
             2 => prop::collection::vec(letter(), 1..=6),
             3 => (prop::collection::vec(letter(), 1..=3), 2usize..=6).prop_map(|(w, e)| { let mut v = vec![]; for _ in 0..e { v.extend(w.iter()); } v }),
+            // near-periodic words u^k u' (u' a proper prefix of u): not proper powers, but with a period
+            2 => (prop::collection::vec(letter(), 2..=4), 2usize..=4, 1usize..=3).prop_map(|(w, e, cut)| { let mut v = vec![]; for _ in 0..e { v.extend(w.iter()); } v.extend(w[..cut.min(w.len() - 1)].iter()); v }),
+            // commutators and conjugation relators x y x^-1 y^(+-k)
+            1 => (letter(), letter(), 1usize..=3, any::<bool>()).prop_map(|(x, y, k, inv)| { let mut v = vec![x, y, -x]; for _ in 0..k { v.push(if inv { -y } else { y }); } v }),
         ];
         // with `torsion` every generator gets a power relator first, which makes finite groups
         // (and finite-index subgroups) much more frequent
